@@ -237,8 +237,9 @@ def run(ctx):
             entry_rx = r"^Try::branch\(FileAndHash::skip_opt_in\([^()]*\)\)↓Continue\.0$"
             for sw, some_t in option_some_edges(lb, oc.sym, entry_rx):
                 reach = lb.reachable(some_t, removed_blocks=set(oc.fail_blocks) | inc_blocks)
-                bad = sw in reach or any(c.bb in reach for c in lb.calls() if is_skip(c))
-                res.append((lb.where(sw), not bad, "next iteration reachable without counting" if bad else
+                bad = sw in reach or any(c.bb in reach for c in lb.calls() if is_skip(c)) or \
+                    any(r in reach for r in oc.returns())
+                res.append((lb.where(sw), not bad, "next iteration or end of the capture reachable without counting" if bad else
                             "entry counted on every continuing path (%d counting block(s))" % len(inc_blocks)))
             for where, ok, detail in res:
                 ctx.ob("R-FLOW", "ManifestContent::take_from:len-counts-entries", ok and len(inc_blocks) == 1 and counter is not None,
